@@ -453,6 +453,40 @@ def run(ctx):
                            au.short(conv[0][0], 50) if conv else "", next(iter(units))), node=(conv[0][0] if conv else v),
                        ok_detail="written with tolist() of the array itself, read back in %r" % next(iter(units)))
 
+            # the element type: the writer stores tolist() of an array of *any* element type (numbers, integers, booleans, dates,
+            # objects such as zone-aware time stamps, which become nested dictionaries); the reader may not force one
+            forced = []
+            for st in au.walk_stmts(rb):
+                for x in au.walk_own(st):
+                    if not isinstance(x, ast.Call):
+                        continue
+                    mn = au.method_name(x)
+                    d = None
+                    if mn in ("asarray", "array", "fromiter", "asanyarray"):
+                        d = au.kwarg(x, "dtype") or (x.args[1] if len(x.args) > 1 else None)
+                    elif mn == "astype":
+                        d = x.args[0] if x.args else au.kwarg(x, "dtype")
+                    if d is None:
+                        continue
+                    alts = []
+                    stack = [d]
+                    while stack:
+                        y = stack.pop()
+                        if isinstance(y, ast.IfExp):
+                            stack += [y.body, y.orelse]
+                        else:
+                            alts.append(y)
+                    for y in alts:
+                        txt = au.const_str(y) or au.U(y)
+                        if not any(k in txt for k in ("datetime64", "M8", "object")) and txt != "None":
+                            forced.append((x, txt))
+            ctx.ob("C11.e", writer, "np_array: element type", not forced,
+                   "the reader rebuilds the array with a fixed element type (%s in %s); the writer stores arrays of every element type: an "
+                   "integer or boolean array comes back as float (saving the loaded object gives another JSON: '0,' -> '0.0,'), and an "
+                   "object array of zone-aware time stamps (an order book built from a DataFrame) cannot be loaded at all" % (
+                       forced[0][1] if forced else "", au.short(forced[0][0], 60) if forced else ""), node=(forced[0][0] if forced else v),
+                   ok_detail="the element type is left to the stored values")
+
     # =========================================================================== Node / Unit / Portfolio: C11.g
     for cname in ("Node", "Unit"):
         if cname not in by_class or cname not in rtags or cname not in p.classes:
